@@ -628,7 +628,12 @@ Definition violates_c04 (c : wcase) : bool := negb (c04_history c).
 Definition violates_c06 (c : wcase) : bool := negb (steps_all c st_c06).
 Definition violates_c07 (c : wcase) : bool := negb (c07_history c).
 Definition violates_c08 (c : wcase) : bool := negb (steps_all c st_c08).
-Definition violates_c09 (c : wcase) : bool := negb (steps_all c st_c09).
+(* C09 on observed histories: no planted secret is readable without the key (flag 4), and a cookie
+   that does not decode under the deployment key FOR ITS OWN NAME contributes nothing: the gate,
+   refresh and identity monitors read a request's session with `load`, which ignores such cookies,
+   so a response that used the content of a modified, renamed or foreign cookie violates them *)
+Definition violates_c09 (c : wcase) : bool :=
+  negb (steps_all c st_c09 && steps_all c st_c01 && steps_all c st_c08 && steps_all c st_c10).
 Definition violates_c10 (c : wcase) : bool := negb (steps_all c st_c10).
 Definition violates_c11 (c : wcase) : bool := negb (c11_history c).
 Definition violates_c15 (c : wcase) : bool := negb (steps_all c st_c15).
